@@ -1,7 +1,7 @@
 (* C15 - a nick change moves the whole identity and nothing else.  Statements only; proofs in
    IRCP.NickP / IRCP.InvNick. *)
 From IRC Require Import Str Wild Glob Parse Reply State Handlers Step.
-From IRCP Require Import InvDefs InvNick InvHandlers NickP.
+From IRCP Require Import InvDefs InvNick InvHandlers NickP NickGlobal.
 From stdpp Require Import gmap.
 Open Scope N_scope.
 
@@ -67,9 +67,39 @@ Proof. intros s c l msg e Ht He. unfold process_line. now rewrite Ht, He. Qed.
 
 End C15.
 
+(* "and nothing else", for every history.  Over every event of every connection: a connection that is there before and after
+   the step carries the same nickname unless the event is that connection's own NICK line; every other command of its own
+   - and every command of anybody else, also an operator's - leaves it alone *)
+Theorem C15_nick_changes_only_by_own_nick : forall cfg verify w i e w' o cl j c c', Inv w -> step cfg verify w i e = Ok (w', o, cl) ->
+  conns w !! j = Some c -> conns w' !! j = Some c' ->
+  c_nick c' = c_nick c \/ (j = i /\ exists l, e = EvLine l /\ exists msg n, tokenize l = inl msg /\ command_of_message msg = inl (NICK n)).
+Proof. exact nick_changes_only_by_own_nick. Qed.
+
+(* the same on the user table: the key a user is found under after a step is the key the same connection's user had before
+   it, unless the event is the owner's own NICK line or the line completing its registration *)
+Theorem C15_user_key_changes_only_by_own_nick : forall cfg verify w i e w' o cl n u', Inv w -> step cfg verify w i e = Ok (w', o, cl) ->
+  users (sh w') !! n = Some u' ->
+  (exists u, users (sh w) !! n = Some u /\ u_conn u = u_conn u') \/
+  (u_conn u' = i /\ exists l, e = EvLine l /\
+     ((exists msg n, tokenize l = inl msg /\ command_of_message msg = inl (NICK n)) \/ exists c, conns w !! i = Some c /\ c_auth c = false)).
+Proof. exact user_key_changes_only_by_own_nick. Qed.
+
+(* a registered connection's command other than NICK leaves nick and source prefix of its own record alone *)
+Theorem C15_other_commands_keep_nick : forall cfg verify i s c cmd msg r,
+  InvS s -> conn_ok i s c -> c_auth c = true -> (forall n, cmd <> NICK n) ->
+  dispatch cfg verify i s c cmd msg = Ok r -> c_nick (h_conn r) = c_nick c /\ c_source (h_conn r) = c_source c.
+Proof.
+  intros cfg verify i s c cmd msg r I C A NN H.
+  assert (is_nick cmd = false) as E by (destruct cmd; try reflexivity; exfalso; eapply NN; reflexivity).
+  pose proof (dispatch_conn_nick cfg verify i s c cmd msg r I C A E H) as F. unfold cnick in F. split; congruence.
+Qed.
+
 Print Assumptions C15_accepted.
 Print Assumptions C15_identity_moves.
 Print Assumptions C15_channel_follows.
 Print Assumptions C15_taken_refused.
 Print Assumptions C15_same_is_noop.
 Print Assumptions C15_invalid_refused.
+Print Assumptions C15_nick_changes_only_by_own_nick.
+Print Assumptions C15_user_key_changes_only_by_own_nick.
+Print Assumptions C15_other_commands_keep_nick.
